@@ -493,6 +493,10 @@ def strload(val: str | bytes | bytearray | memoryview) -> PythonValueT:
     # `bytearray` and writable `memoryview` are not hashable, `bytes` are.
     if isinstance(val, (bytearray, memoryview)):
         val = bytes(val)
+    # The result must not depend on the class of the text: a `str` subclass (e.g., a
+    #   member of a `str` enum) shares its cache entry with the equal plain `str`.
+    elif val.__class__ is not str and isinstance(val, str):
+        val = str.__str__(val)
     loaded = _strload(val)
     # Never hand out the memoized object itself if it can be mutated.
     if loaded.__class__ in (dict, list, set, tuple):
